@@ -1,8 +1,8 @@
 CONSTANTS
-  NA = 3
-  LockOf0 <- L123
+  NA = 2
+  LockOf0 <- L12
   MaxOps = 2
-  MaxSec = 1
+  MaxSec = 3
   Timeouts = TRUE
   Handoff = TRUE
   Eager = FALSE
